@@ -114,6 +114,25 @@ pub fn check(case: &Case, idx: u64, acc: &mut Acc) {
             let u = universe(*nuni);
             let d1 = x.dual(&u);
             let d2 = x.dual2(&u);
+            // the same numbers with non-standard memory layouts (reversed-memory gradient, column-major Hessian) must
+            // answer every request exactly as the standard ones
+            {
+                let (n1, n2) = (x.dual_nonstd(&u), x.dual2_nonstd(&u));
+                for list in ordered_sublists(nuni + 1) {
+                    let req: Vec<String> = list.iter().map(|i| sym(*nuni, *i, &u)).collect();
+                    acc.evals_add(3);
+                    if n1.gradient1(req.clone()) != d1.gradient1(req.clone()) || n2.gradient1(req.clone()) != d2.gradient1(req.clone()) {
+                        acc.violate("layout/gradient1", idx, cj(), json!({"list": req, "want": d1.gradient1(req.clone()).to_vec()}), json!(n1.gradient1(req.clone()).to_vec()));
+                    }
+                    if n2.gradient2(req.clone()) != d2.gradient2(req.clone()) {
+                        acc.violate("layout/gradient2", idx, cj(), json!({"list": req}), json!(format!("{:?}", n2.gradient2(req.clone()))));
+                    }
+                    let (ma, mb) = (n2.gradient1_manifold(req.clone()), d2.gradient1_manifold(req.clone()));
+                    if ma.len() != mb.len() || ma.iter().zip(mb.iter()).any(|(p, q)| p.real() != q.real() || p.gradient1(req.clone()) != q.gradient1(req.clone())) {
+                        acc.violate("layout/manifold", idx, cj(), json!({"list": req}), json!("differs from the standard-layout number"));
+                    }
+                }
+            }
             for list in ordered_sublists(nuni + 1) {
                 let req: Vec<String> = list.iter().map(|i| sym(*nuni, *i, &u)).collect();
                 let m = list.len();
@@ -521,7 +540,7 @@ pub fn run(ctx: &Ctx, replay_file: Option<String>) -> ! {
          Hessians and every requested list. Larger numbers on a menu (3..33 names) through a request menu that is the product of selection (all stored names, one omitted at the \
          front / second / middle / end, every other, contiguous blocks, a block with one name replaced by a name stored elsewhere, scattered names) x order \
          (stored, reversed, two interior names swapped, interior reversed, rotated, ends swapped) x padding with absent names (none, interleaved, \
-         4*size+2 absent names in front / behind / spread through). Numbers with an infinite / overflowing Hessian entry or an infinite gradient entry: every requested list still reads every other entry back exactly. History independence: every requested list put, in a row on one thread, to \
+         4*size+2 absent names in front / behind / spread through). Every number is also built through clone_from with a reversed-memory gradient and a column-major Hessian and must answer every request as its standard form does. Numbers with an infinite / overflowing Hessian entry or an infinite gradient entry: every requested list still reads every other entry back exactly. History independence: every requested list put, in a row on one thread, to \
          every layout of a 3-name pool, each number built fresh and dropped before the next. Non-trivial: requests that differ from the stored list.",
         json!({"names": 4, "requested_lists": ordered_sublists(5).len(), "cases": cs.len()}),
     )
